@@ -34,6 +34,7 @@ import (
 	"github.com/ipfs/go-graphsync/requestmanager/executor"
 	"github.com/ipfs/go-graphsync/requestmanager/hooks"
 	"github.com/ipfs/go-graphsync/requestmanager/reconciledloader"
+	"github.com/ipfs/go-graphsync/verifhook"
 )
 
 // The code in this file implements the internal thread for the request manager.
@@ -48,6 +49,7 @@ func (rm *RequestManager) run() {
 		select {
 		case message := <-rm.messages:
 
+			verifhook.Yield("reqmgr.handle")
 			message.handle(rm)
 		case <-rm.ctx.Done():
 			return
